@@ -52,6 +52,11 @@ def generate(ctx):
     ents.append(('pe_terms', {'kind': 'dry', 'rest': True, 'upwind': True}))
     ents.append(('pe_terms', {'kind': 'dry', 'upwind': True}))
     ents.append(('sw_terms', {'rest_layer': True}))
+    # moist equations linearised at a state with identically zero humidity, humidity in the tangent
+    ents.append(('pe_terms', {'kind': 'moist', 'dry_air': True}))
+    # digital filter initialisation: a multi-step entry point evaluated several times in one process
+    ents.append(('dfi', {'kind': 'sw'}))
+    if not quick: ents.append(('dfi', {'kind': 'dry'}))
     ents.append(('sw_step', {'integrator': 'backward_forward_euler', 'rest_layer': True}))
     steps = ([('dry', 'imex_rk_sil3', ['exponential']), ('moist', 'crank_nicolson_rk3', []), ('dry', 'backward_forward_euler', ['diffusion'])]
              if quick else [(k, i, f) for k in ['dry', 'moist'] for i in dyn.INTEGRATORS for f in ([], ['exponential', 'diffusion'])])
@@ -271,6 +276,12 @@ def r_pe_terms(ctx, a):
     tag = a['kind'] + ('[upwind]' if a.get('upwind') else '')
     if a.get('rest'):
         x = _at_rest(x); tag += '[at rest]'
+    if a.get('dry_air'):
+        m_ = dyn.mods(); x = x.replace(tracers={k: m_['jnp'].zeros_like(q) for k, q in x.tracers.items()}); tag += '[q = 0]'
+        # a tangent purely in humidity, and the generic tangent
+        vq = v.replace(vorticity=0 * v.vorticity, divergence=0 * v.divergence, temperature_variation=0 * v.temperature_variation,
+                       log_surface_pressure=0 * v.log_surface_pressure, sim_time=0.0 * v.sim_time)
+        _ad_oracles(ctx, f'{tag}.explicit_terms (humidity tangent)', eq.explicit_terms, x, vq, fd_tol=1e-6)
     # upwind advection at rest sits exactly on the kink of max(w,0)/min(w,0): the central difference
     # there equals JAX's symmetric derivative only up to O(h) (one-sided second-order terms), so the
     # tolerance is relative 2e-3 with h = 1e-4 (a wrong branch choice gives O(1) relative errors)
@@ -327,6 +338,26 @@ def r_sw_step(ctx, a):
     _ad_oracles(ctx, f'shallow water step {a["integrator"]}', step, x, v, fd_tol=1e-6)
 
 
+def r_dfi(ctx, a):
+    """digital_filter_initialization: derivative clauses, and the function must be the same function each
+    time it is evaluated / traced in one process (jvp, vjp and the finite differences all trace it again)."""
+    rng = _seed(ctx, a); m = dyn.mods(); ti = m['ti']
+    if a['kind'] == 'sw':
+        g, c, eq = _sw_setup(rng); x = _to_jnp(dyn.sw_state(rng, c)); v = _to_jnp(dyn.sw_state(rng, c))
+    else:
+        g, c, eq, make = _pe_setup(rng, 'dry'); x = _to_jnp(make()); v = _to_jnp(make())
+    dt = 0.02
+    f = ti.digital_filter_initialization(eq, ti.imex_rk_sil3, dyn.step_filters(['exponential'], g, dt), time_span=8 * dt, cutoff_period=8 * dt, dt=dt)
+    y1 = f(x); y2 = f(x); y3 = f(x)
+    sc = max(dyn.tree_maxabs(y1), 1e-300)
+    for u, w in zip(dyn.tree_leaves(y2) + dyn.tree_leaves(y3), dyn.tree_leaves(y1) + dyn.tree_leaves(y1)):
+        ctx.oracle_close('digital_filter_initialization returns the same value on repeated evaluation', u, w, scale=sc, tol_rel=1e-13)
+    _ad_oracles(ctx, f'digital_filter_initialization[{a["kind"]}]', f, x, v, fd_tol=1e-6)
+    f2 = ti.digital_filter_initialization(eq, ti.imex_rk_sil3, dyn.step_filters(['exponential'], g, dt), time_span=8 * dt, cutoff_period=8 * dt, dt=dt)
+    for u, w in zip(dyn.tree_leaves(f2(x)), dyn.tree_leaves(y1)):
+        ctx.oracle_close('a second filter built with the same parameters equals the first', u, w, scale=sc, tol_rel=1e-13)
+
+
 def r_held_suarez(ctx, a):
     rng = _seed(ctx, a)
     from dinosaur import held_suarez
@@ -367,4 +398,4 @@ def r_checkpoint(ctx, a):
 
 RUNNERS = {'jvp_sigma': r_jvp_sigma, 'jvp_primeq': r_jvp_primeq, 'grid_ops': r_grid_ops, 'filters': r_filters, 'interp': r_interp,
            'pe_terms': r_pe_terms, 'pe_step': r_pe_step, 'sw_terms': r_sw_terms, 'sw_step': r_sw_step,
-           'held_suarez': r_held_suarez, 'checkpoint': r_checkpoint}
+           'held_suarez': r_held_suarez, 'dfi': r_dfi, 'checkpoint': r_checkpoint}
